@@ -557,3 +557,8 @@ fn get_active_chord<'a, T>(
         delay: since,
     }
 }
+
+// Verification hook (add-only, compiled only by `cargo kani`): contract harnesses live in /verif.
+#[cfg(kani)]
+#[path = "/verif/kani/harness/chord.rs"]
+mod verif_kani;
